@@ -52,13 +52,13 @@ def module(E):
     if form == 1:
         src = src.replace("parse_err_fn = user_err", "parse_err_fn = Self::make_err")
         g = D.GENERICS[E["generics"]]
-        tg = {"none": "", "ty": "<T>", "tywhere": "<T>", "lt": "<'a>", "const": "<N>", "tyconst": "<T, N>"}[E["generics"]]
-        src += "impl%s %s%s%s { pub fn make_err(s: &str) -> UserErr { user_err(s) } }\n" % (g["decl"], E["name"], tg, g.get("where", ""))
+        tg = {"none": "", "ty": "<T>", "tywhere": "<T>", "lt": "<'a>", "const": "<N>", "tyconst": "<T, N>", "tydef": "<T>", "constdef": "<N>"}[E["generics"]]
+        src += "impl%s %s%s%s { pub fn make_err(s: &str) -> UserErr { user_err(s) } }\n" % (g.get("impl_decl", g["decl"]), E["name"], tg, g.get("where", ""))
     elif form == 3:
         src = src.replace("parse_err_fn = user_err", "parse_err_fn = UserErr::from")        # impl From<&str> for UserErr
     elif form == 4:
         src = src.replace("parse_err_fn = user_err", "parse_err_fn = user_err_generic")       # fn f<S: AsRef<str>>(s: S) -> UserErr
-    elif form == 2 and E["generics"] in ("ty", "tywhere"):
+    elif form == 2 and E["generics"] in ("ty", "tywhere", "tydef"):
         src = src.replace("parse_err_ty = UserErr", "parse_err_ty = GenErr<T>").replace("parse_err_fn = user_err", "parse_err_fn = gen_err")
         src = src.replace("parse_batch::<%s, UserErr>" % D.inst(E), "parse_batch::<%s, GenErr<u16>>" % D.inst(E))
     return src
